@@ -10,4 +10,19 @@ PROPS = {
         "modelled": ["Rust std str::split / contains / starts_with semantics (tied by the exhaustive small-scope comparison)"],
         "assumptions": ["the three copies are compared with one model each on the same inputs; agreement of the copies is a by-product"],
     },
+    "C13": {
+        "runs": [{"vh": "clog", "shards_thorough": 16, "selftest": True}],
+        "exhaustive_scope": True,
+        "trusted_base": [
+            "CommitLog model: Vec/VecDeque as List, u64/usize as Nat; every subtraction, index, slice, unwrap and the caller-controlled addition idx+len is an explicit panic result",
+        ],
+        "modelled": [
+            "additions over the log's own counters (absolute offsets, segment ids, byte totals) are in Nat: they need about 2^63 appended entries or bytes to wrap",
+            "allocation (Vec::with_capacity) is not modelled",
+        ],
+        "assumptions": [
+            "readv takes &self, so interleavings of appends and reads are append sequences with reads at any moment (Reached quantifies over all of them)",
+            "the read theorems assume |history| + n < 2^64 (the count cannot overflow u64); the unrestricted clause is refuted by C13.readv_panics_for_huge_count and recorded in KNOWN_FINDINGS",
+        ],
+    },
 }
